@@ -275,6 +275,11 @@ def run_shard(desc, tier, seed):
                 for tA, tB, al in itertools.product(tp['tA'], tp['tB'], tp['alpha']):
                     if fam in ('touch', 'miss_1e-3', 'miss_1e-7') and al != tp['alpha'][0]:
                         continue
+                    if sc != 1.0 and subdivision_pair(desc['A'], desc['B']) and fam not in ('cross', 'endpoint', 'node'):
+                        # the subdivision solver's tolerances are absolute: at scale 100 every miss / far
+                        # configuration costs 7 more halving levels for nothing new
+                        acc.filt('scaled_miss_of_two_curved_segments_skipped_for_cost')
+                        continue
                     if fam in ('touch', 'miss_1e-7') and subdivision_pair(desc['A'], desc['B']):
                         # (near-)tangency makes the subdivision solver visit thousands of box pairs
                         # (20-50 s per call): a fixed handful in the thorough tier only
